@@ -231,10 +231,10 @@ def enterChecks (s : S) (o : Op) (res : Res) (n : Int) (data : List UInt8) (earl
     ((o.kind == .read || o.kind == .readAll || o.kind == .recvFrom) && (n < 0 || n.toNat > o.len), "read-count-out-of-range"),
     ((o.kind == .read || o.kind == .readAll) && data != streamBytes o.obj off n.toNat, "read-bytes-differ-from-stream"),
     ((o.kind == .read || o.kind == .readAll) && off + n.toNat > lookup s.peerSent o.obj 0, "read-bytes-invented"),
-    ((o.kind == .read || o.kind == .readAll) && res == .ok && n == 0, "read-success-with-zero-bytes"),
+    ((o.kind == .read || o.kind == .readAll) && res == .ok && n == 0 && o.len != 0, "read-success-with-zero-bytes"),
     (o.kind == .readAll && res == .ok && n.toNat != o.len, "readall-success-partial"),
     ((o.kind == .write || o.kind == .writeAll) && (n < 0 || n.toNat > o.len), "write-count-out-of-range"),
-    ((o.kind == .write || o.kind == .writeAll) && res == .ok && n == 0, "write-success-with-zero-bytes"),
+    ((o.kind == .write || o.kind == .writeAll) && res == .ok && n == 0 && o.len != 0, "write-success-with-zero-bytes"),
     (o.kind == .writeAll && res == .ok && n.toNat != o.len, "writeall-success-partial"),
     ((o.kind == .write || o.kind == .writeAll) && n.toNat < o.seen, "write-count-below-bytes-on-wire") ]
 
